@@ -107,19 +107,24 @@ def sums_layer(ctx, conn):
                      ("convert({}, 'USD')", "convert({}, 'USD')"), ("convert({}, 'EUR')", "convert({}, 'EUR')"),
                      ('value({}, 2020-06-30)', 'value({}, 2020-06-30)'),
                      ("convert({}, 'EUR', 2020-06-30)", "convert({}, 'EUR', 2020-06-30)")] + dated:
-            q = 'SELECT account, %s AS a, sum(%s) AS b FROM #postings%s GROUP BY account' % (f.format('sum(position)'), g.format('position'), w)
-            try:
-                res = conn.execute(q).fetchall()
-            except Exception as exc:  # noqa: BLE001
-                ctx.record_violation('homomorphism-query-raises', '%s: %r' % (q, exc))
-                continue
-            ctx.evaluations += 1
-            ctx.count('homomorphism-oracle')
-            for acc_name, a, b in res:
-                if not inv_close(a, b):
-                    ctx.record_violation('f-of-sum-differs-from-sum-of-f:' + f.split('(')[0], '%s: %s: %s vs %s' % (q, acc_name, a, b),
-                                         payload={'query': q})
-                    break
+            # grouped by account, by transaction (the legs of one currency cancel to exactly zero) and over everything
+            for key in ('account', 'id', "'all'"):
+                q = 'SELECT %s AS k, %s AS a, sum(%s) AS b FROM #postings%s GROUP BY %s' % (
+                    key, f.format('sum(position)'), g.format('position'), w, 'k' if key == "'all'" else key)
+                if key != 'account' and f.split('(')[0] not in ('units', 'cost') and not ctx.thorough():
+                    continue
+                try:
+                    res = conn.execute(q).fetchall()
+                except Exception as exc:  # noqa: BLE001
+                    ctx.record_violation('homomorphism-query-raises', '%s: %r' % (q, exc))
+                    continue
+                ctx.evaluations += 1
+                ctx.count('homomorphism-oracle')
+                for acc_name, a, b in res:
+                    if not inv_close(a, b):
+                        ctx.record_violation('f-of-sum-differs-from-sum-of-f:' + f.split('(')[0], '%s: %s: %s vs %s' % (q, acc_name, a, b),
+                                             payload={'query': q})
+                        break
 
 
 def balance_layer(ctx, conn):
